@@ -232,6 +232,7 @@ func protoPath(fds []protoreflect.FieldDescriptor) string {
 }
 
 func newPlan(rule RuleSpec) (*plan, error) {
+	deepTypes()
 	p := &plan{rule: rule}
 	t, err := tmplref.Parse(rule.Tmpl)
 	if err != nil {
@@ -341,6 +342,7 @@ func nextSeq() int {
 // does not take other rules down. The descriptor construction error is a
 // harness error; registration outcomes are recorded per rule.
 func buildDynamic(rules []RuleSpec, kind string) (*env, error) {
+	deepTypes()
 	seq := nextSeq()
 	f := &vschema.File{Path: fmt.Sprintf("vf/tc%d.proto", seq), Pkg: fmt.Sprintf("vf.tc%d", seq)}
 	main := vschema.Service{Name: "Main"}
@@ -603,6 +605,11 @@ func requestRules() (dynamic []RuleSpec, real []RuleSpec) {
 		cxRule("cx:var-top+body-star", "POST", "/ct/{double_value}", "*"),
 		cxRule("cx:var-oneof", "GET", "/cu/{oneof_string_value}", ""),
 		cxRule("cx:var-sint-fixed", "GET", "/cv/{sint32_value}/{sint64_value}/{fixed64_value}/{sfixed32_value}", ""),
+		// constant variables: a pattern without wildcard
+		vfRule("vf:var-literal", "GET", "/pu/{a=fixed}", ""),
+		vfRule("vf:var-literal-two-segments+body-sub", "POST", "/pv/{sub.a=one/two}", "sub"),
+		vfRule("vf:var-literal-typed+body-star", "POST", "/pw/{f=true}/{e=RED}/{b=const}", "*"),
+		cxRule("cx:var-literal-nested", "GET", "/cl/{nested.string_value=books}/{string_value}", ""),
 		// typed and bytes variables on rules that also map a body
 		vfRule("vf:var-bytes+body-star", "POST", "/pm/{y}", "*"),
 		vfRule("vf:var-scalars+body-star", "POST", "/pq/{n}/{l}/{u}/{f}/{e}/{dbl}", "*"),
@@ -620,6 +627,7 @@ func requestRules() (dynamic []RuleSpec, real []RuleSpec) {
 		pbRule("Messaging", "GetMessageTwo", "GetMessageRequestTwo", rsp+"Message", "GET", "/v1/users/{user_id}/messages/{message_id}", ""),
 		pbRule("Messaging", "UpdateMessage", "UpdateMessageRequestOne", rsp+"Message", "PATCH", "/v1/messages/{message_id}", "message"),
 		pbRule("Messaging", "UpdateMessageBody", "Message", rsp+"Message", "PATCH", "/v1/messages/{message_id}/body", "*"),
+		pbRule("Messaging", "Action", "Message", "google.protobuf.Empty", "POST", "/v1/{text=action}:cancel", "*"),
 		pbRule("Messaging", "ActionSegment", "Message", "google.protobuf.Empty", "POST", "/v1/{text=*}:clear", "*"),
 		pbRule("Messaging", "ActionResource", "Message", "google.protobuf.Empty", "GET", "/v1/{text=actions/*}:fetch", ""),
 		pbRule("Messaging", "ActionSegments", "Message", "google.protobuf.Empty", "POST", "/v1/{text=**}:watch", "*"),
